@@ -99,7 +99,7 @@ enum Op { APP_SET, APP_SMP, APP_RNG, APP_ALIAS, APP_DFR, DEP_SET, DEP_RNG, DEP_S
 
 enum Tk { T_SORTED, T_UNSORTED, T_DUPS, T_LEN1, T_EMPTY };
 static const char *TKN[] = {"sorted ticks", "unsorted ticks", "ticks with duplicates", "one tick", "empty tick vector"};
-enum Dfm { DF_NOCOL, DF_0, DF_LAST, DF_LAST1, DF_NAME, DF_UNKNOWN, DF_UNINIT };
+enum Dfm { DF_NOCOL, DF_0, DF_LAST, DF_LAST1, DF_NAME, DF_UNKNOWN, DF_UNINIT, DF_FOREIGN };
 
 struct Letter {
     Op op = REOPEN;
@@ -190,10 +190,11 @@ static std::vector<Letter> catalogue() {
     { Letter l; l.op = APP_ALIAS; l.name = "appendAliasRangeDimension()"; l.cls = "alias"; push(l, ALL, true); }
     // ---- appendDataFrameDimension
     {
-        static const char *nm[] = {"no column", "column 0", "last column", "column index == number of columns", "column by name", "unknown column name", "uninitialised frame"};
-        const int lv[] = {LF | LM | LR, ALL, LF | LM, LF | LS | LM | LR, LF | LM, LF | LS | LM, LT | LM};
-        const bool co[] = {false, true, false, true, false, false, false};
-        for (int k = 0; k < 7; k++) { Letter l; l.op = APP_DFR; l.dfm = k; l.name = std::string("appendDataFrameDimension(frame, ") + nm[k] + ")"; l.cls = nm[k]; push(l, lv[k], co[k]); }
+        static const char *nm[] = {"no column", "column 0", "last column", "column index == number of columns", "column by name", "unknown column name", "uninitialised frame",
+                                   "frame of another block that carries the name of a frame of this block"};
+        const int lv[] = {LF | LM | LR, ALL, LF | LM, LF | LS | LM | LR, LF | LM, LF | LS | LM, LT | LM, LF | LS | LM};
+        const bool co[] = {false, true, false, true, false, false, false, true};
+        for (int k = 0; k < 8; k++) { Letter l; l.op = APP_DFR; l.dfm = k; l.name = std::string("appendDataFrameDimension(frame, ") + nm[k] + ")"; l.cls = nm[k]; push(l, lv[k], co[k]); }
     }
     // ---- deprecated create*Dimension(id, ...): n = 0 -> id = count+1, n = 1 -> id = count+2 (would leave a gap if honoured; may be refused)
     { Letter l; l.op = DEP_SET; l.n = 1; l.name = "createSetDimension(id=count+2)"; l.cls = "id past the end"; push(l, LF | LM | LR, true); }
@@ -335,7 +336,7 @@ struct Model {
             if (!l.s2.empty() && !is_si(l.s2)) return C_EITHER;
             return (l.op == DEP_RNG && l.n == 1) ? C_EITHER : C_ACCEPT;
         case APP_ALIAS: return (c->track && dims.empty() && (aunit.empty() || is_si(aunit))) ? C_ACCEPT : C_REJECT;
-        case APP_DFR: return (l.dfm == DF_LAST1 || l.dfm == DF_UNKNOWN || l.dfm == DF_UNINIT) ? C_REJECT : C_ACCEPT;
+        case APP_DFR: return l.dfm == DF_FOREIGN ? C_ILLEGAL : (l.dfm == DF_LAST1 || l.dfm == DF_UNKNOWN || l.dfm == DF_UNINIT) ? C_REJECT : C_ACCEPT;
         case S_LABEL: if (target(l) < 0) return C_OFF; return l.none ? C_ACCEPT : l.s1.empty() ? C_EITHER : C_ACCEPT;
         case S_UNIT: {
             int t = target(l); if (t < 0) return C_OFF;
@@ -717,6 +718,11 @@ struct Runner {
         DataFrame fr;
         std::string frame_ref = "none";
         if (need_frame) { fr = b.createDataFrame("frame", "t", frame_columns()); frame_ref = "frame/" + fr.id(); }
+        DataFrame foreign_fr;
+        for (auto &s : steps) if (s.op == APP_DFR && s.dfm == DF_FOREIGN && !foreign_fr) {
+            Block ob = f.createBlock("other", "t");
+            foreign_fr = ob.createDataFrame("frame", "t", frame_columns()); foreign_fr.rows(7);
+        }
         std::vector<H> kept;
         bool extend = true, fresh_session = true;
         std::string op = "create", icls = "-";
@@ -769,6 +775,16 @@ struct Runner {
                     case DF_NAME: d = a.appendDataFrameDimension(fr, std::string("name")); break;
                     case DF_UNKNOWN: d = a.appendDataFrameDimension(fr, std::string("nope")); break;
                     case DF_UNINIT: d = a.appendDataFrameDimension(DataFrame(), 0u); break;
+                    case DF_FOREIGN: {
+                        if (!foreign_fr) foreign_fr = f.getBlock("other").getDataFrame("frame");
+                        d = a.appendDataFrameDimension(foreign_fr, 0u);
+                        // accepted: then the descriptor must read back the frame it was GIVEN, not a namesake
+                        DataFrame got = d.data();
+                        if (rep && (!got || got.id() != foreign_fr.id()))
+                            viol("C13|appendDataFrameDimension|frame of another block that carries the name of a frame of this block|descriptor reads back the frame it was given|" + std::string(got ? "another frame" : "no frame"),
+                                 C.label + ": " + trace + " returned a descriptor whose frame is " + (got ? got.name() + "/" + got.id() : std::string("none")) + ", given " + foreign_fr.id());
+                        break;
+                    }
                     }
                     newh.dfr = d; newh.d = d; appended = true; break;
                 }
@@ -792,7 +808,7 @@ struct Runner {
                 case A_APPEND: { auto v = tickvec(C, 0, 3); a.appendData(DataType::Double, v.data(), NDSize({(ndsize_t)v.size()}), 0); break; }
                 case DEL_DIMS: a.deleteDimensions(); break;
                 case REOPEN: {
-                    kept.clear(); h = H(); a = DataArray(); da = DataArray(); fr = DataFrame(); b = Block();
+                    kept.clear(); h = H(); a = DataArray(); da = DataArray(); fr = DataFrame(); foreign_fr = DataFrame(); b = Block();
                     f.close();
                     f = File::open(path, FileMode::ReadWrite);
                     b = f.getBlock("blk"); da = b.getDataArray("arr");
@@ -883,7 +899,7 @@ struct Runner {
                 else { const bool sh = (rot / 2) % 2 == 1; paths.push_back(Path{"fresh array handle", observe(a2, m, nullptr, false, true, sh), sh}); }
                 a2 = DataArray();
                 // after close + reopen ReadOnly
-                kept.clear(); da = DataArray(); fr = DataFrame(); b = Block();
+                kept.clear(); da = DataArray(); fr = DataFrame(); foreign_fr = DataFrame(); b = Block();
                 f.close();
                 exc = vf::guarded([&] { f = File::open(path, FileMode::ReadOnly); b = f.getBlock("blk"); da = b.getDataArray("arr"); }, &what);
                 if (!exc.empty() || !da) { viol("C13|File::open(ReadOnly)|after " + op + "|file reopens|" + (exc.empty() ? "array none" : exc), C.label + ": " + trace + ": " + what); ok = false; }
@@ -893,7 +909,7 @@ struct Runner {
             cnt("getter_calls", g_getters - g0);
             dst("states", m.state_key(fresh_session));
         }
-        kept.clear(); da = DataArray(); fr = DataFrame(); b = Block();
+        kept.clear(); da = DataArray(); fr = DataFrame(); foreign_fr = DataFrame(); b = Block();
         f.close();
         return extend && ok && nviol == 0;
     }
